@@ -799,7 +799,6 @@ const SIG_MIXED_C05: &str = "c05:mixed-set-cdata-drops-children";
 const SIG_LATE_SN: &str = "c04:short-name-added-later-not-indexed";
 const SIG_BEFORE_SN: &str = "c04:content-before-short-name-in-mixed-named-element";
 // families found by this scenario (NOT in the task's list; proposed signatures, see the report)
-const SIG_RMSELF: &str = "c12:remove-self-deadlock";
 const SIG_DANGLING_RENAME: &str = "c06:rename-rewrites-dangling-prefix";
 const SIG_DUP_ROOT: &str = "c13:duplicate-drops-root-attributes-and-comment";
 const SIG_XMLNS_LOAD: &str = "c10:edited-xmlns-breaks-load";
@@ -2226,8 +2225,9 @@ fn wait_for(sh: &Shared, started: Instant, total: Duration) {
                     }
                 }
                 let what = if hung { format!("`{req}` did not return within {} s (or the oracle calls following it hang)", REQ_TIMEOUT.as_secs()) } else { format!("history did not finish within {} s; last request issued: `{req}`", total.as_secs()) };
-                let w: Vec<&str> = req.split(' ').collect();
-                let f = if hung && w.len() == 3 && w[0] == "remove" && w[1] == w[2] { Failure::known("C12", SIG_RMSELF, what) } else { Failure::new("C12", "timeout", what) };
+                let _w: Vec<&str> = req.split(' ').collect();
+                // (p.remove_sub_element(p) used to hang: known finding c12:remove-self-deadlock, repaired by 91e634a - a hang is a violation again)
+                let f = Failure::new("C12", "timeout", what);
                 g.fails.push((f, h));
                 g.stats.push(("timeouts".to_string(), 1));
                 g.done = true;
@@ -2250,7 +2250,7 @@ impl Reporter {
         self.nfail += 1;
         let c = self.shrunk_per_key.entry(f.key.clone()).or_insert(0);
         *c += 1;
-        let do_shrink = *c <= 3 && f.key != "C12:timeout" && f.key != "C12:panic-oracle" && f.sig != Some(SIG_RMSELF);
+        let do_shrink = *c <= 3 && f.key != "C12:timeout" && f.key != "C12:panic-oracle";
         let t0 = Instant::now();
         let (reqs, reproduced) = if do_shrink { shrink(hist, &f.key, self.prop.clone(), kind) } else { (hist.iter().map(|x| x.0.clone()).collect(), false) };
         if do_shrink {
@@ -3768,7 +3768,7 @@ fn spawn_history(seed: u64, kind: Kind, thorough: bool, prop: Option<String>) ->
     std::thread::spawn(move || {
         let mut rng = Rng::new(seed);
         let mut flag = |pct: u64| rng.chance(pct, 1000);
-        let (a, b, c, d, e, f, f2, f3, f4) = (flag(15), flag(15), flag(15), flag(7), flag(15), flag(12), flag(12), flag(12), flag(12));
+        let (a, b, c, d, e, f, f2, f3, f4) = (flag(15), flag(15), flag(15), flag(30), flag(15), flag(12), flag(12), flag(12), flag(12));
         let with_load = flag(500);
         let f5 = flag(100) && matches!(prop.as_deref(), None | Some("C03" | "C04" | "C05" | "C06" | "C10" | "C11" | "C12"));
         sh2.lock().unwrap().flags = [(a, "collision"), (b, "ancestor-move"), (c, "mixed-cdata"), (d, "remove-self"), (e, "dangling-rename"), (f, "last-file"), (f2, "stale-file"), (f3, "root-attr"), (f4, "split-move"), (f5, "bad-names")].iter().filter(|x| x.0).map(|x| x.1).collect::<Vec<_>>().join("+");
